@@ -33,6 +33,8 @@ def run(c: Check):
         "'eventually' is proved as absence of stuck states: in a quiescent state no job waits on a token whose request "
         "fits (fair delivery of pending events and watcher threads is assumed)",
         "Token.aio_notify's posted checks are run at once (they read the state at the time they run)",
+        "fairness (not proved): every pending event is eventually handled, every watcher thread eventually runs, every job "
+        "process ends, every scheduler releases what it took - i.e. a quiescent state is reached; events are never lost",
         "a watcher thread's lock / wait / delete sequence is one step of the model; the create window of a token file is "
         "not interrupted by a kill of its creator; all requests are at least 1",
     ]
